@@ -88,7 +88,7 @@ func voucherAtoms() ([]AtomDef, []Derivation) {
 		errNil("x509-verify-ok", "(*x509.Certificate).Verify returned nil", named("crypto/x509.Certificate.Verify"), nil),
 		// --- extension ---
 		equal("ext-owner-key-eq", "the signer's public key equals the voucher's current owner key",
-			hasProv("call:crypto.Signer.Public"), hasProv("call:fdo.Voucher.OwnerPublicKey")),
+			hasProvX("call:crypto.Signer.Public"), hasProvX("call:fdo.Voucher.OwnerPublicKey")),
 		AtomDef{Name: "ext-mfg-type-ok", Doc: "the manufacturer key has the signer's key type", Edge: func(m *Matcher, p Pred, holds bool) bool {
 			if p.Kind != "bool" || !holds {
 				return false
@@ -102,11 +102,11 @@ func voucherAtoms() ([]AtomDef, []Derivation) {
 				return false
 			}
 			t := shortTypeString(ta.AssertedType)
-			return (t == "*crypto/ecdsa.PublicKey" || t == "*crypto/rsa.PublicKey") && m.Prov(ta.X).Has("call:fdo/protocol.PublicKey.Public") && m.Prov(ta.X).Has("field:fdo.VoucherHeader.ManufacturerKey")
+			return (t == "*crypto/ecdsa.PublicKey" || t == "*crypto/rsa.PublicKey") && m.Prov(ta.X).Has("call:fdo/protocol.PublicKey.Public") && m.Prov(ta.X).HasX("field:fdo.VoucherHeader.ManufacturerKey")
 		}},
 		equal("ext-size-eq", "curve / modulus size of manufacturer key and signer key are equal",
-			provAnd(hasProv("field:fdo.VoucherHeader.ManufacturerKey"), lacksProv("call:crypto.Signer.Public")),
-			provAnd(hasProv("call:crypto.Signer.Public"), lacksProv("field:fdo.VoucherHeader.ManufacturerKey"))),
+			provAnd(hasProvX("field:fdo.VoucherHeader.ManufacturerKey"), lacksProv("call:crypto.Signer.Public")),
+			provAnd(hasProvX("call:crypto.Signer.Public"), lacksProv("field:fdo.VoucherHeader.ManufacturerKey"))),
 		boolTrue("ext-next-type-ok", "the next-owner key has the manufacturer key's type and size/curve", func(n string) bool { return strings.HasPrefix(n, "fdo.") }, 0,
 			func(m *Matcher, _ ssa.CallInstruction, args []ssa.Value) bool {
 				if len(args) != 2 {
